@@ -21,6 +21,7 @@ CONSTANTS
     HttpWriteDbs <- MCHttpWriteDbs
     TestMethods <- MCTestMethods
     TestPatterns <- MCTestPatterns
+    TestSubtrees <- MCTestSubtrees
 CONSTRAINT HW
 POSTCONDITION AcceptedHttp
 CHECK_DEADLOCK FALSE
